@@ -42,6 +42,10 @@ func runC18(c *Ctx, r *Report) {
 	r.Floor("C18-e/ok-checked", 5, "parse sites of funcsTime.go")
 	stageKeepsNoAtomicState(c, r, "C18-f/no-memo", func(p token.Pos) bool { return inFuncsTime(c, p) }, true)
 	c18WholeSecondsOut(c, r, "C18-d/whole-seconds-out")
+	// names (formats, buckets, attributes) are resolved the same way on every run: no lookup by
+	// iterating a map in hash order and taking the first hit
+	nm := emitMapLoops(c, r, "C18-g/map-order", analyseMapLoops(c), func(ml mapLoop) bool { return inFuncsTime(c, ml.Rs.Pos()) })
+	r.OK("C18-g/map-order", stdlibPkg, "scan", "-", fmt.Sprintf("scan: %d map iteration(s) in the time helpers examined", nm))
 }
 
 // evalIntExpr evaluates an integer expression with some identifiers bound.
